@@ -1,6 +1,7 @@
 import Driver.Common
 import GqlModel.Lexer
 import GqlModel.LexerSpec
+import GqlModel.LexerQuote
 /-! Driver for the lexer half of C03.
 `{"src": base64}` → `{"M": R, "S": R, "kf": [class…]}` with
 `R = {"tokens": [[kind, start, stop, value_base64]…], "err": [pos, errKind] | null}`.
@@ -75,6 +76,10 @@ def encRes (r : LexResult) : Json :=
       | some e => Json.arr #[Json.num e.pos, Json.num (errKindNat e.kind)])]
 
 def handle (j : Json) : Except String Json := do
+  -- `{"quote": base64}` → `{"q": base64}` : the model of printer.go's quoteString (tied to the real printer by the harness)
+  if let some q := Driver.getOpt j "quote" then
+    let s ← b64dec (← q.getStr?)
+    return Json.mkObj [("q", Json.str (b64enc (Lexer.quoteString s)))]
   let src ← b64dec (← Driver.getStr j "src")
   let m := Lexer.lexAll src
   let s := Spec.lexAll src
